@@ -717,7 +717,8 @@ func (p *Parser) parseSubdirectives() map[string]string {
 		}
 
 		if p.current.Type == TokenNewline || p.current.Type == TokenEOF {
-			continue
+			// a line of nothing but blanks is an empty line: it ends the directive
+			return subdirs
 		}
 
 		if p.current.Type == TokenText {
